@@ -38,6 +38,7 @@ pub struct Leaf {
     pub name: String,
     pub n: i128,
     pub sub: Option<Box<Leaf>>, // a nested object of the same type: nesting depth is data (abstract value: `chain`)
+    pub tags: Option<Vec<i128>>, // an array inside an object that itself sits inside an array or a nested object
 }
 impl New for Leaf {
     fn new() -> Self {
@@ -46,7 +47,7 @@ impl New for Leaf {
 }
 impl ToJSON for Leaf {
     fn list_properties() -> Vec<JSONProperty> {
-        vec![prop("name", JSON_TYPE.string), prop("n", JSON_TYPE.integer), prop("sub", JSON_TYPE.object)]
+        vec![prop("name", JSON_TYPE.string), prop("n", JSON_TYPE.integer), prop("sub", JSON_TYPE.object), prop("tags", JSON_TYPE.array)]
     }
     fn get_property(&self, property_name: String) -> JSONValue {
         let mut v = JSONValue::new();
@@ -54,6 +55,7 @@ impl ToJSON for Leaf {
             "name" => v.string = Some(self.name.clone()),
             "n" => v.i128 = Some(self.n),
             "sub" => { if let Some(l) = &self.sub { v.object = Some(l.to_json_string()) } }
+            "tags" => { if let Some(a) = &self.tags { if let Ok(j) = JSONArrayOfIntegers::to_json_from_list_i128(a) { v.array = Some(j) } } }
             _ => {}
         }
         v
@@ -76,6 +78,7 @@ impl FromJSON for Leaf {
                         self.sub = Some(Box::new(l));
                     }
                 }
+                "tags" => { if let Some(a) = v.array { self.tags = Some(JSONArrayOfIntegers::parse_as_list_i128(a)?) } }
                 _ => {}
             }
         }
@@ -89,6 +92,7 @@ pub struct Inner {
     pub label: String,
     pub flag: bool,
     pub leaf: Option<Leaf>,
+    pub items: Option<Vec<Leaf>>, // an array of objects inside a nested object
 }
 impl New for Inner {
     fn new() -> Self {
@@ -97,7 +101,7 @@ impl New for Inner {
 }
 impl ToJSON for Inner {
     fn list_properties() -> Vec<JSONProperty> {
-        vec![prop("label", JSON_TYPE.string), prop("flag", JSON_TYPE.boolean), prop("leaf", JSON_TYPE.object)]
+        vec![prop("label", JSON_TYPE.string), prop("flag", JSON_TYPE.boolean), prop("leaf", JSON_TYPE.object), prop("items", JSON_TYPE.array)]
     }
     fn get_property(&self, property_name: String) -> JSONValue {
         let mut v = JSONValue::new();
@@ -105,6 +109,7 @@ impl ToJSON for Inner {
             "label" => v.string = Some(self.label.clone()),
             "flag" => v.bool = Some(self.flag),
             "leaf" => { if let Some(l) = &self.leaf { v.object = Some(l.to_json_string()) } }
+            "items" => { if let Some(a) = &self.items { if let Ok(j) = JSONArrayOfObjects::<Leaf>::to_json(a) { v.array = Some(j) } } }
             _ => {}
         }
         v
@@ -127,6 +132,7 @@ impl FromJSON for Inner {
                         self.leaf = Some(l);
                     }
                 }
+                "items" => { if let Some(a) = v.array { self.items = Some(JSONArrayOfObjects::<Leaf>::from_json(a)?) } }
                 _ => {}
             }
         }
@@ -220,10 +226,11 @@ fn leaf_of(v: &Value) -> Leaf {
     let mut sub: Option<Box<Leaf>> = None;
     if let Some(chain) = v["chain"].as_array() {
         for c in chain.iter().rev() {
-            sub = Some(Box::new(Leaf { name: c["name"].as_str().unwrap_or("").to_string(), n: c["n"].as_str().unwrap_or("0").parse().unwrap_or(0), sub }));
+            sub = Some(Box::new(Leaf { name: c["name"].as_str().unwrap_or("").to_string(), n: c["n"].as_str().unwrap_or("0").parse().unwrap_or(0), sub, tags: None }));
         }
     }
-    Leaf { name: v["name"].as_str().unwrap_or("").to_string(), n: v["n"].as_str().unwrap_or("0").parse().unwrap_or(0), sub }
+    let tags = if present(&v["tags"]) { Some(v["tags"]["v"].as_array().unwrap().iter().map(|x| x.as_str().unwrap().parse().unwrap()).collect()) } else { None };
+    Leaf { name: v["name"].as_str().unwrap_or("").to_string(), n: v["n"].as_str().unwrap_or("0").parse().unwrap_or(0), sub, tags }
 }
 fn leaf_json(l: &Leaf) -> Value {
     let mut chain = vec![];
@@ -232,18 +239,21 @@ fn leaf_json(l: &Leaf) -> Value {
         chain.push(json!({"name": x.name, "n": x.n.to_string()}));
         cur = &x.sub;
     }
-    json!({"name": l.name, "n": l.n.to_string(), "chain": chain})
+    json!({"name": l.name, "n": l.n.to_string(), "chain": chain,
+           "tags": opt(l.tags.is_some(), json!(l.tags.clone().unwrap_or_default().iter().map(|x| x.to_string()).collect::<Vec<_>>()), json!([]), 0)})
 }
 fn inner_of(v: &Value) -> Inner {
     Inner { label: v["label"].as_str().unwrap_or("").to_string(), flag: v["flag"].as_str() == Some("true"),
-            leaf: if present(&v["leaf"]) { Some(leaf_of(&v["leaf"]["v"])) } else { None } }
+            leaf: if present(&v["leaf"]) { Some(leaf_of(&v["leaf"]["v"])) } else { None },
+            items: if present(&v["items"]) { Some(v["items"]["v"].as_array().unwrap().iter().map(leaf_of).collect()) } else { None } }
 }
 fn no_leaf() -> Value {
-    json!({"p": false, "v": {"name": "", "n": "0", "chain": []}})
+    json!({"p": false, "v": {"name": "", "n": "0", "chain": [], "tags": {"p": false, "v": []}}})
 }
 fn inner_json(i: &Inner) -> Value {
     json!({"label": i.label, "flag": i.flag.to_string(),
-           "leaf": match &i.leaf { Some(l) => json!({"p": true, "v": leaf_json(l)}), None => no_leaf() }})
+           "leaf": match &i.leaf { Some(l) => json!({"p": true, "v": leaf_json(l)}), None => no_leaf() },
+           "items": opt(i.items.is_some(), json!(i.items.clone().unwrap_or_default().iter().map(leaf_json).collect::<Vec<_>>()), json!([]), 0)})
 }
 fn outer_of(c: &Value) -> Outer {
     Outer {
@@ -264,7 +274,7 @@ fn outer_json(o: &Outer) -> Value {
         "b": opt(o.b.is_some(), json!(o.b.unwrap_or(false).to_string()), nostr.clone(), 0),
         "i": opt(o.i.is_some(), json!(o.i.unwrap_or(0).to_string()), nostr.clone(), 0),
         "f": opt(o.f.is_some(), json!(fbits(o.f.unwrap_or(0.0))), nostr.clone(), 0),
-        "obj": match &o.obj { Some(i) => json!({"p": true, "v": inner_json(i)}), None => json!({"p": false, "v": {"label": "", "flag": "false", "leaf": no_leaf()}}) },
+        "obj": match &o.obj { Some(i) => json!({"p": true, "v": inner_json(i)}), None => json!({"p": false, "v": {"label": "", "flag": "false", "leaf": no_leaf(), "items": {"p": false, "v": []}}}) },
         "objs": opt(o.objs.is_some(), json!(o.objs.clone().unwrap_or_default().iter().map(leaf_json).collect::<Vec<_>>()), json!([]), 0),
         "ints": opt(o.ints.is_some(), json!(o.ints.clone().unwrap_or_default().iter().map(|x| x.to_string()).collect::<Vec<_>>()), json!([]), 0),
         "strs": opt(o.strs.is_some(), json!(o.strs.clone().unwrap_or_default()), json!([]), 0),
@@ -294,11 +304,19 @@ fn ind_leaf(v: &Value) -> Value {
         chain.push(json!({"name": ind_str(&x["name"]), "n": ind_int(&x["n"])}));
         cur = x.get("sub");
     }
-    json!({"name": ind_str(&v["name"]), "n": ind_int(&v["n"]), "chain": chain})
+    let tags = match v.get("tags") {
+        None => json!({"p": false, "v": []}),
+        Some(t) => json!({"p": true, "v": match t.as_array() { Some(a) => json!(a.iter().map(ind_int).collect::<Vec<_>>()), None => json!(["<not-an-array>"]) }}),
+    };
+    json!({"name": ind_str(&v["name"]), "n": ind_int(&v["n"]), "chain": chain, "tags": tags})
 }
 fn ind_inner(v: &Value) -> Value {
     json!({"label": ind_str(&v["label"]), "flag": ind_bool(&v["flag"]),
-           "leaf": if v.get("leaf").is_some() { json!({"p": true, "v": ind_leaf(&v["leaf"])}) } else { no_leaf() }})
+           "leaf": if v.get("leaf").is_some() { json!({"p": true, "v": ind_leaf(&v["leaf"])}) } else { no_leaf() },
+           "items": match v.get("items") {
+               None => json!({"p": false, "v": []}),
+               Some(t) => json!({"p": true, "v": match t.as_array() { Some(a) => json!(a.iter().map(ind_leaf).collect::<Vec<_>>()), None => json!(["<not-an-array>"]) }}),
+           }})
 }
 fn ind_outer(v: &Value) -> Value {
     let has = |k: &str| v.get(k).is_some();
@@ -311,7 +329,7 @@ fn ind_outer(v: &Value) -> Value {
         "b": opt(has("b"), ind_bool(&v["b"]), nostr.clone(), 0),
         "i": opt(has("i"), ind_int(&v["i"]), nostr.clone(), 0),
         "f": opt(has("f"), ind_float(&v["f"]), nostr.clone(), 0),
-        "obj": if has("obj") { json!({"p": true, "v": ind_inner(&v["obj"])}) } else { json!({"p": false, "v": {"label": "", "flag": "false", "leaf": no_leaf()}}) },
+        "obj": if has("obj") { json!({"p": true, "v": ind_inner(&v["obj"])}) } else { json!({"p": false, "v": {"label": "", "flag": "false", "leaf": no_leaf(), "items": {"p": false, "v": []}}}) },
         "objs": opt(has("objs"), arr("objs", &ind_leaf), json!([]), 0),
         "ints": opt(has("ints"), arr("ints", &ind_int), json!([]), 0),
         "strs": opt(has("strs"), arr("strs", &ind_str), json!([]), 0),
